@@ -9,7 +9,7 @@ INT_RANGE = {'int8': (-128, 127), 'int16': (-2 ** 15, 2 ** 15 - 1), 'int32': (-2
              'uint32': (0, 2 ** 32 - 1)}
 
 
-LONG_AXIS_SHARE = float(os.environ.get('VERIF_LONG_AXIS', '0'))      # share of the compute cases that have a very long axis
+LONG_AXIS_SHARE = float(os.environ.get('VERIF_LONG_AXIS', '0'))      # opt-in (VERIF_LONG_AXIS=0.004): share of the plain compute cases with a very long axis
 
 
 def gen_shape(rng, maxpix=48, ndim=None):
@@ -190,7 +190,7 @@ def gen_long_axis_case(rng):
 
 def gen_compute_case(rng, maxpix=48, force=None):
     force = force or {}
-    if not (set(force) - {'bigint', 'big'}) and rng.random() < LONG_AXIS_SHARE:
+    if force.get('allow_long') and rng.random() < LONG_AXIS_SHARE:
         return gen_long_axis_case(rng)
     shape = force.get('shape') or gen_shape(rng, maxpix, force.get('ndim'))
     n = 1
